@@ -38,7 +38,7 @@ def gen_case(ch: Chooser, tier: str = "quick") -> dict:
         stateful = False
         placing = False
         row = [0]
-        n_f = ch.rint(1, 2)
+        n_f = ch.weighted([(2, 1), (3, 2), (1, 3)])
         for fi in range(n_f):
             fname = f"f{fi + 1}"
             params = [["Signal", "x"]]
@@ -70,7 +70,7 @@ def gen_case(ch: Chooser, tier: str = "quick") -> dict:
                 body.append(["decl", "Signal", nm, ["bin", op, ["var", ch.pick(locs)], rhs]])
                 locs.append(nm)
             sig_funcs = [f_ for f_ in funcs if f_[4] != ["var", "lamp"]]
-            kind = ch.weighted([(5, "plain"), (2, "mem"), (2, "place"), (2 if sig_funcs else 0, "nested")])
+            kind = ch.weighted([(4, "plain"), (3, "mem"), (2, "place"), (2 if sig_funcs else 0, "nested")])
             if kind == "mem":
                 stateful = True
                 body.append(["mem", "cnt", "signal-C"])
@@ -108,8 +108,11 @@ def gen_case(ch: Chooser, tier: str = "quick") -> dict:
         # call sites
         _uses_mod[0] = any('"%"' in repr(f_).replace("'", '"') for f_ in funcs)
         n_calls = ch.rint(1, 4)
+        cover = ch.chance(1, 2)      # every function called at least once (two helpers that each
+        if cover:                    # own a local `cnt` are only interesting when both run)
+            n_calls = max(n_calls, len(funcs))
         for ci in range(n_calls):
-            f = ch.pick(funcs)
+            f = funcs[ci] if (cover and ci < len(funcs)) else ch.pick(funcs)
             args = _args(ch, f, None, False, g, row, inside=False)
             if f[4] == ["var", "lamp"]:
                 nm = c.fresh("e")
@@ -282,6 +285,13 @@ def run_case(case: dict) -> dict:
             res["status"] = "excluded"
             res["excluded_by"] = "crosstalk"
             return res
+        if "same-source-two-roles" in excl:
+            from .c02 import same_source_two_roles
+
+            if same_source_two_roles(tw_stmts):
+                res["status"] = "excluded"
+                res["excluded_by"] = "same-source-two-roles"
+                return res
         it = lang.Interp(tw_stmts)
         it.run(input_inits(case), {})
         if it.places:
